@@ -616,6 +616,20 @@ def random_py(bounds, n, rows):
     return True, ""
 
 
+def shrink_random(b, pr, n, s, msg):
+    """One parameter / few designs with the same draw seed, if that still violates the property."""
+    for j in range(len(b)):
+        for nn in (1, 2, 3, n):
+            try:
+                rows, _ = impl_random([b[j]], [pr[j]], nn, s)
+            except Exception:  # noqa: BLE001
+                continue
+            ok, m2 = random_py([b[j]], nn, rows)
+            if not ok:
+                return [b[j]], [pr[j]], nn, m2
+    return b, pr, n, msg
+
+
 def stream_random(ctx):
     rng = ctx.rng
     n_cases = 150 if ctx.quick else 1000
@@ -639,6 +653,7 @@ def stream_random(ctx):
                 ctx.count("random_extreme_draws")
         ok, msg = random_py(b, n, rows)
         if not ok:
+            b, pr, n, msg = shrink_random(b, pr, n, s, msg)
             ctx.fail("random-" + ("count" if "requested" in msg else "dim" if "coordinates" in msg else "bounds"),
                      "RandomGenerator with number=%d, parameters %r: %s" % (n, make_params(b, pr), msg),
                      {"op": "random", "N": n, "bounds": [list(x) for x in b], "precisions": pr, "draw_seed": s})
